@@ -45,7 +45,8 @@ ERR_PATTERNS = [
     ("infrec", re.compile(r"Infinite recursion on symbol '(.*)' in production '(\d+):.*'\.", re.S)),
     # diagnostics of the proposed repairs (notes/C09-fix-*.diff)
     ("emptymisuse", re.compile(r"EMPTY can't be used in an assignment or as a separator\.")),
-    ("helperclash", re.compile(r"Name '(.*)' is needed for a rule generated from a repetition", re.S)),
+    ("helperclash", re.compile(r"'(.*)' is needed for the repetition '.*' but is already defined as a (?:rule|terminal)\.", re.S)),
+    ("reserved", re.compile(r"'(.*)' is a reserved name\.", re.S)),
     ("dupname", re.compile(r"(?:Terminal|Rule) '(.*)' is already defined", re.S)),
     ("notimplemented", re.compile(r"(?:Parenthesized groups|Greedy repetitions|Multiple repetition modifiers) are not (?:yet )?implemented")),
     ("norules", re.compile(r"Grammar has no rules\.")),
@@ -251,6 +252,11 @@ def witness_cases():
         ("stop-sugar", gt.Spec([R("S", [A([T("Ta"), As(Ref(("n", "STOP"), ("*", None)))])])], terms)),
         ("stop-sep", gt.Spec([R("S", [A([As(Ref(("n", "Ta"), ("+", ["STOP"])))])])], terms)),
         ("stop-named", gt.Spec([R("S", [A([As(Ref(("n", "STOP")), "p", "x"), T("Ta")])])], terms)),
+        ("reserved-rule", gt.Spec([R("S", [A([T("Ta")])]), R("AUG", [A([T("Tb")])])], terms)),
+        ("helper-capture-before", gt.Spec([R("S", [A([T("X"), T("A1")])]), R("A1", [A([T("Tb")])]),
+                                           R("X", [A([As(Ref(("n", "A"), ("+", None)))])]), R("A", [A([T("Ta")])])], terms)),
+        ("helper-capture-terminal", gt.Spec([R("S", [A([As(Ref(("n", "Ta"), ("*", None))), T("Tb")])])],
+                                            terms + [gt.TermRule("Ta1", ("S", "z"))])),
         ("dup-terminal", gt.Spec([R("S", [A([T("Ta")])])], terms[:1] + [gt.TermRule("Ta", ("S", "b"))])),
         ("dup-terminal-5", gt.Spec([R("S", [A([T("Ta")])])], [gt.TermRule("Ta", ("S", c)) for c in "abcde"])),
         ("self-helper", gt.Spec([R("S", [A([T("A1"), T("B")])]), R("A1", [A([T("Tb"), As(Ref(("n", "A"), ("+", None)))])]),
